@@ -103,6 +103,7 @@ def mark_leaves(e: E, exp, nsmap_stack=None):
             import enum
 
             e.info["attr_types"][(ans, al)] = [(t.kind, t.name) for t in want.types]
+            e.info.setdefault("attr_tokens", {})[(ans, al)] = bool(want.tokens)
             vals = want.value if want.tokens else [want.value]
             vals = [x.value if isinstance(x, enum.Enum) else x for x in vals]
             tn = {type(x).__name__ for x in vals}
